@@ -1576,6 +1576,13 @@ func (tw *twin) callView(c *Chain, from common.Address, to common.Address, data 
 	bf := c.BaseFee(ctx)
 	msg := ethtypes.NewMessage(from, &to, 0, big.NewInt(0), 3_000_000, bf, bf, big.NewInt(0), data, nil, true)
 	resp, err := c.App.EvmKeeper.ApplyMessage(ctx, msg, evmtypes.NewNoOpTracer(), false)
+	if err != nil && strings.Contains(err.Error(), "block proposer address") {
+		// a native step of this very sequence step removed the duplicate validator that shares the proposer's
+		// consensus key (see RepairConsAddrIndex): point the index back on both chains and ask again
+		tw.both(func(c *Chain) { c.RepairConsAddrIndex() })
+		ctx = c.QueryCtx()
+		resp, err = c.App.EvmKeeper.ApplyMessage(ctx, msg, evmtypes.NewNoOpTracer(), false)
+	}
 	require.NoError(tw.t, err)
 	return resp.Ret, !resp.Failed()
 }
